@@ -100,6 +100,7 @@ struct lib {
 	FileName	name;
 	ArEntry		arent;
 	BPack(Bool)	rdOnly;
+	BPack(Bool)	isOutput;	/* Opened by libWrite: writes must succeed. */
 	BPack(Bool)	intLoaded;	/* Already loaded by interpreter? */
 	String		idName;		/* Name of initialiser */
 	FILE *		file;
